@@ -5,10 +5,12 @@ package ev
 
 import (
 	"bufio"
+	"bytes"
 	"encoding/json"
 	"fmt"
 	"hash/fnv"
 	"os"
+	"os/exec"
 	"path/filepath"
 	"regexp"
 	"sort"
@@ -59,6 +61,8 @@ type Run struct {
 	viols     map[string]*finding
 	violOrder []string
 	deadline  time.Time
+	child     bool
+	childViol map[string]int
 }
 
 // Start parses the command line: `<tier>` or `--replay <path>`.
@@ -66,7 +70,7 @@ func Start(prop, level string) *Run {
 	r := &Run{Prop: prop, Level: level, Tier: "quick", start: time.Now(),
 		ntKeys: map[uint64]struct{}{}, stKeys: map[uint64]struct{}{}, outcomes: map[string]struct{}{},
 		extra: map[string]interface{}{}, known: map[string]string{}, knownHit: map[string]*finding{},
-		viols: map[string]*finding{}, exh: true}
+		viols: map[string]*finding{}, exh: true, childViol: map[string]int{}}
 	if t := os.Getenv("VERIF_TIER"); t == "quick" || t == "thorough" {
 		r.Tier = t
 	}
@@ -122,15 +126,15 @@ func (r *Run) loadKnown() {
 	}
 }
 
-func (r *Run) Eval(n int)           { atomic.AddInt64(&r.evals, int64(n)) }
-func (r *Run) Evals() int64         { return atomic.LoadInt64(&r.evals) }
-func (r *Run) Skipped(n int)        { atomic.AddInt64(&r.skipped, int64(n)) }
-func (r *Run) Transitions(n int)    { atomic.AddInt64(&r.trans, int64(n)) }
-func (r *Run) Traces(n int)         { atomic.AddInt64(&r.traces, int64(n)) }
-func (r *Run) StatesAdd(n int)      { atomic.AddInt64(&r.states, int64(n)) }
-func (r *Run) NontrivialAdd(n int)  { atomic.AddInt64(&r.nontrivial, int64(n)) } // cases distinct by construction
-func (r *Run) Rule(s string)        { r.rule = s }
-func (r *Run) Assume(s ...string)   { r.assume = append(r.assume, s...) }
+func (r *Run) Eval(n int)          { atomic.AddInt64(&r.evals, int64(n)) }
+func (r *Run) Evals() int64        { return atomic.LoadInt64(&r.evals) }
+func (r *Run) Skipped(n int)       { atomic.AddInt64(&r.skipped, int64(n)) }
+func (r *Run) Transitions(n int)   { atomic.AddInt64(&r.trans, int64(n)) }
+func (r *Run) Traces(n int)        { atomic.AddInt64(&r.traces, int64(n)) }
+func (r *Run) StatesAdd(n int)     { atomic.AddInt64(&r.states, int64(n)) }
+func (r *Run) NontrivialAdd(n int) { atomic.AddInt64(&r.nontrivial, int64(n)) } // cases distinct by construction
+func (r *Run) Rule(s string)       { r.rule = s }
+func (r *Run) Assume(s ...string)  { r.assume = append(r.assume, s...) }
 func (r *Run) Set(k string, v interface{}) {
 	r.mu.Lock()
 	r.extra[k] = v
@@ -195,6 +199,16 @@ var sanitize = regexp.MustCompile(`[^A-Za-z0-9_.-]+`)
 func (r *Run) Violation(key, what string, replay interface{}) {
 	r.mu.Lock()
 	defer r.mu.Unlock()
+	if r.child {
+		r.childViol[key]++
+		if r.childViol[key] <= 3 {
+			b, _ := json.Marshal(map[string]interface{}{"key": key, "what": what, "case": replay})
+			fmt.Printf("@@V %s\n", b)
+		} else {
+			fmt.Printf("@@N %s\n", key)
+		}
+		return
+	}
 	if kw, ok := r.known[key]; ok {
 		f := r.knownHit[key]
 		if f == nil {
@@ -370,4 +384,134 @@ func Try(f func()) (panicked string) {
 	}()
 	f()
 	return ""
+}
+
+type childStats struct {
+	Evals, Nontrivial, States, Trans, Traces, Skipped int64
+	NtKeys, StKeys                                    []uint64
+	Outcomes                                          []string
+	Samples                                           []interface{}
+	Extra                                             map[string]interface{}
+	Exh                                               bool
+	Rule                                              string
+	Assume                                            []string
+}
+
+var frameRe = regexp.MustCompile(`github\.com/unixpickle/model3d/[a-z0-9_]+\.(\(\*?[A-Za-z0-9_\[\].]+\)\.)?[A-Za-z0-9_]+`)
+
+// Isolate runs one stage of a check in a child process (the same binary,
+// re-executed), so that a crash the harness cannot recover - a panic inside a
+// goroutine the library spawned, a fatal runtime error, memory exhaustion -
+// is reported as a violation of that stage instead of taking the check down.
+// All work of a check should be inside Isolate stages: the child re-runs main
+// up to its stage.
+func (r *Run) Isolate(stage string, f func()) {
+	if r.Replay != "" {
+		f()
+		return
+	}
+	if env := os.Getenv("VERIF_STAGE"); env != "" {
+		if env != stage {
+			return
+		}
+		r.child = true
+		f()
+		r.mu.Lock()
+		cs := childStats{Evals: r.evals, Nontrivial: r.nontrivial, States: r.states, Trans: r.trans, Traces: r.traces, Skipped: r.skipped,
+			Samples: r.samples, Extra: r.extra, Exh: r.exh, Rule: r.rule, Assume: r.assume}
+		for k := range r.ntKeys {
+			cs.NtKeys = append(cs.NtKeys, k)
+		}
+		for k := range r.stKeys {
+			cs.StKeys = append(cs.StKeys, k)
+		}
+		for k := range r.outcomes {
+			cs.Outcomes = append(cs.Outcomes, k)
+		}
+		r.mu.Unlock()
+		b, _ := json.Marshal(cs)
+		fmt.Printf("@@S %s\n", b)
+		os.Exit(0)
+	}
+	cmd := exec.Command(os.Args[0], os.Args[1:]...)
+	cmd.Env = append(os.Environ(), "VERIF_STAGE="+stage)
+	var so, se bytes.Buffer
+	cmd.Stdout, cmd.Stderr = &so, &se
+	err := cmd.Run()
+	gotStats := false
+	for _, line := range strings.Split(so.String(), "\n") {
+		switch {
+		case strings.HasPrefix(line, "@@V "):
+			var v struct {
+				Key, What string
+				Case      interface{}
+			}
+			if json.Unmarshal([]byte(line[4:]), &v) == nil {
+				r.Violation(v.Key, v.What, v.Case)
+			}
+		case strings.HasPrefix(line, "@@N "):
+			r.Violation(line[4:], "", nil)
+		case strings.HasPrefix(line, "@@S "):
+			var cs childStats
+			if e := json.Unmarshal([]byte(line[4:]), &cs); e != nil {
+				Fatal("stage %s: bad stats: %v", stage, e)
+			}
+			gotStats = true
+			atomic.AddInt64(&r.evals, cs.Evals)
+			atomic.AddInt64(&r.nontrivial, cs.Nontrivial)
+			atomic.AddInt64(&r.states, cs.States)
+			atomic.AddInt64(&r.trans, cs.Trans)
+			atomic.AddInt64(&r.traces, cs.Traces)
+			atomic.AddInt64(&r.skipped, cs.Skipped)
+			r.mu.Lock()
+			for _, k := range cs.NtKeys {
+				r.ntKeys[k] = struct{}{}
+			}
+			for _, k := range cs.StKeys {
+				r.stKeys[k] = struct{}{}
+			}
+			for _, k := range cs.Outcomes {
+				r.outcomes[k] = struct{}{}
+			}
+			for _, sm := range cs.Samples {
+				if len(r.samples) < 5 {
+					r.samples = append(r.samples, sm)
+				}
+			}
+			for k, v := range cs.Extra {
+				if f, ok := v.(float64); ok {
+					if old, ok2 := r.extra[k].(float64); ok2 {
+						v = old + f
+					}
+				}
+				r.extra[k] = v
+			}
+			if !cs.Exh {
+				r.exh = false
+			}
+			r.mu.Unlock()
+		case line != "":
+			fmt.Println(line)
+		}
+	}
+	if se.Len() > 0 && (err == nil || gotStats) {
+		os.Stderr.Write(se.Bytes())
+	}
+	if !gotStats {
+		msg := se.String()
+		if ee, ok := err.(*exec.ExitError); ok && ee.ExitCode() == 2 && strings.Contains(msg, "ERROR:") && !strings.Contains(msg, "goroutine ") {
+			os.Stderr.WriteString(msg)
+			os.Exit(2) // machinery error inside the child, not a verdict
+		}
+		first := strings.SplitN(strings.TrimSpace(msg), "\n", 2)[0]
+		site := "unknown-site"
+		if m := frameRe.FindString(msg); m != "" {
+			site = strings.TrimPrefix(m, "github.com/unixpickle/model3d/")
+		}
+		if len(msg) > 4000 {
+			msg = msg[:4000]
+		}
+		r.Violation(stage+"/crash/"+site, "stage "+stage+" crashed the process: "+first, map[string]interface{}{"stage": stage, "stderr": msg})
+		r.NotExhaustive("stage " + stage + " crashed")
+	}
 }
